@@ -18,11 +18,11 @@ var Sizes = []int{768, 1024, 1536, 2048, 3072, 4096, 5120}
 
 // Pair is a private key with its self-signed certificate (DER).
 type Pair struct {
-	Who  string
-	Bits int
-	Key  *rsa.PrivateKey
-	Cert []byte // DER
-	X509 *x509.Certificate
+	Who             string
+	Bits            int
+	Key             *rsa.PrivateKey
+	Cert            []byte // DER
+	X509            *x509.Certificate
 	KeyPEM, CertPEM []byte
 }
 
